@@ -864,6 +864,27 @@ pub fn synthetic_project(seed: u64) -> Project {
             extra_keys.push("PN: toString".into());
         }
     }
+    if rng.chance(1, 8) {
+        // type names that are not ASCII (valid identifiers): whatever encodes names into $ref paths, definition
+        // keys or JavaScript identifiers has to do it the same way every time
+        extra_decls.push("export type Gr\u{f6}\u{df}e = { wert: number; n\u{e4}chste?: Gr\u{f6}\u{df}e | null };\nexport type Ma\u{df} = Gr\u{f6}\u{df}e | null;\nexport type \u{540d}\u{524d} = { kind: \"\u{540d}\"; g: Gr\u{f6}\u{df}e } | { kind: \"other\"; m: Ma\u{df} };\nexport type UsesNonAscii = { g: Gr\u{f6}\u{df}e; m: Ma\u{df}[]; n?: \u{540d}\u{524d} };".into());
+        extra_keys.push("UsesNonAscii: UsesNonAscii".into());
+        extra_keys.push("Gr\u{f6}\u{df}e: Gr\u{f6}\u{df}e".into());
+        if rng.chance(1, 2) {
+            extra_keys.push("Ma\u{df}: Ma\u{df}".into());
+            extra_keys.push("\u{540d}\u{524d}: \u{540d}\u{524d}".into());
+        }
+    }
+    let mut pet_files = false;
+    if rng.chance(1, 8) {
+        // two modules whose doc comments sit at the same byte offsets (same layout, same lengths): whatever keys
+        // comments by position must keep the files apart
+        pet_files = true;
+        extra_decls.push("import { PetCat } from \"./pet_cat\";\nimport type { PetDog } from \"./pet_dog\";\nexport type Pets = { cat: PetCat; dog?: PetDog };".into());
+        extra_keys.push("Pets: Pets".into());
+        extra_keys.push("PetCat: PetCat".into());
+        extra_keys.push("PetDog: PetDog".into());
+    }
     let mut cyc_files = false;
     if rng.chance(1, 8) {
         // declarations that refer to themselves in ways the type checker rejects (or that only a
@@ -1142,6 +1163,10 @@ pub fn synthetic_project(seed: u64) -> Project {
             src.push_str(&format!("parse.buildParsers<{{ {} }}>();\n", keys.join("; ")));
         }
         files.insert(fname(k), src);
+    }
+    if pet_files {
+        files.insert("/p/pet_cat.ts".into(), "/** A cat. */\nexport type PetCat = {\n  /** name of cat */\n  name: string;\n  /** lives left */\n  n: number;\n};\n".into());
+        files.insert("/p/pet_dog.ts".into(), "/** A dog. */\nexport type PetDog = {\n  /** name of dog */\n  name: string;\n  /** legs left */\n  n: number;\n};\n".into());
     }
     if cyc_files {
         files.insert("/p/cyc_a.ts".into(), "import x from \"./cyc_b\";\nexport default x;\n".into());
